@@ -83,6 +83,8 @@ impl ServiceTargetActor {
     }
 
     async fn stop_service(&mut self) {
+        #[cfg(zinoma_verif)]
+        crate::verif::hooks::virtual_service_stop(&self.target.metadata.id);
         if self.service_process.is_some() {
             let target_id = self.target.metadata.id.clone();
             let mut running_service = self.service_process.take().unwrap();
@@ -98,6 +100,11 @@ impl ServiceTargetActor {
 
     async fn restart_service(&mut self) -> Result<()> {
         self.stop_service().await;
+
+        #[cfg(zinoma_verif)]
+        if crate::verif::hooks::sim_active() {
+            return crate::verif::hooks::virtual_service_spawn(&self.target.metadata.id);
+        }
 
         log::info!("{} - Starting service", self.target.metadata.id);
 
